@@ -19,7 +19,20 @@ Proof.
 Qed.
 Print Assumptions prepend_first.
 
-(* envAppend puts a value that is not yet an element last *)
+(* envAppend puts its value last, whether or not it was an element already; every other element is kept once,
+   in order; no other variable changes (the code after the fix of D8) *)
+Theorem append_last d var v e :
+  wf_delim d = true -> wf_elem d v = true -> no_dollar (oldv var e) = true ->
+  exists e', env_prepend true true var v d e = Ok (Some e') /\
+    elems d (oldv var e') = remove_str v (uniq (elems d (oldv var e))) ++ [v] /\
+    (forall k, k <> var -> alookup k e' = alookup k e).
+Proof.
+  intros Hd Hv Ho. destruct (env_prepend_elems true true var v d e Hd Hv Ho) as [e' [H1 [H2 [_ H4]]]].
+  exists e'. rewrite H2. auto using result_append.
+Qed.
+Print Assumptions append_last.
+
+(* ... in particular a value that is not yet an element comes after all the old ones *)
 Theorem append_last_fresh d var v e :
   wf_delim d = true -> wf_elem d v = true -> no_dollar (oldv var e) = true ->
   ~ In v (elems d (oldv var e)) ->
@@ -32,29 +45,26 @@ Proof.
 Qed.
 Print Assumptions append_last_fresh.
 
-(* what the code does when the appended value is already an element: nothing moves
-   (this is the known finding D8; the property text asks for "last") *)
-Theorem append_present_keeps_position d var v e :
+(* ... and a value that is already an element is moved to the end (the case of the former finding D8) *)
+Theorem append_present_moves_last d var v e :
   wf_delim d = true -> wf_elem d v = true -> no_dollar (oldv var e) = true ->
   In v (elems d (oldv var e)) ->
   exists e', env_prepend true true var v d e = Ok (Some e') /\
-    elems d (oldv var e') = uniq (elems d (oldv var e)).
+    last_opt (elems d (oldv var e')) = Some v.
 Proof.
   intros Hd Hv Ho Hn. destruct (env_prepend_elems true true var v d e Hd Hv Ho) as [e' [H1 [H2 _]]].
-  exists e'. rewrite H2. auto using result_append_present.
+  exists e'. split; [exact H1|]. rewrite H2, result_append. apply last_opt_snoc.
 Qed.
-Print Assumptions append_present_keeps_position.
+Print Assumptions append_present_moves_last.
 
-Theorem append_present_refuted :
-  exists d var v e e',
-    wf_delim d = true /\ wf_elem d v = true /\ no_dollar (oldv var e) = true /\
-    env_prepend true true var v d e = Ok (Some e') /\
-    last_opt (elems d (oldv var e')) <> Some v.
+(* the pinned code left a present element where it was: a:b:c with b appended stayed a:b:c *)
+Theorem append_present_refuted_pinned :
+  exists d v old,
+    In v (elems d old) /\ last_opt (result_list_pinned true true d v old) <> Some v.
 Proof.
-  exists ":"%char, (lit "P"), (lit "b"), [(lit "P", lit "a:b:c")].
-  eexists. repeat split; try reflexivity. vm_compute. discriminate.
+  exists ":"%char, (lit "b"), (lit "a:b:c"). split; [vm_compute; auto|vm_compute; discriminate].
 Qed.
-Print Assumptions append_present_refuted.
+Print Assumptions append_present_refuted_pinned.
 
 (* each element once, in setup and in unsetup mode, for prepend and append *)
 Theorem once_each ap fwd d var v e :
